@@ -126,6 +126,10 @@ def shared_headers(engine):
 def compile_one(job):
     comp, flags, src, obj, logf = job
     if os.path.exists(obj):
+        try:
+            os.utime(obj)
+        except OSError:
+            pass
         return (src, 0, "", True)
     tmp = obj + ".tmp%d" % os.getpid()
     cmd = [comp] + flags + ["-c", src, "-o", tmp]
@@ -178,10 +182,14 @@ def prune_build(inc_key):
         d = os.path.join(BUILD, sub)
         if not os.path.isdir(d):
             continue
+        now = time.time()
         for f in os.listdir(d):
             if f[:12] not in keep:
                 try:
-                    os.remove(os.path.join(d, f))
+                    # files touched in the last two hours may belong to a check that is running right now against another include tree
+                    # (recent.json is updated without a lock): leave them to a later prune
+                    if now - os.path.getmtime(os.path.join(d, f)) > 7200:
+                        os.remove(os.path.join(d, f))
                 except OSError:
                     pass
 
@@ -217,6 +225,11 @@ def build_engine(engine, flavour, tier, sources, extra_flags=(), gen_includes=()
     bkey = sha(*objs, " ".join(fl["link"]))[:24]
     binary = os.path.join(BUILD, "bin", "%s-%s-%s-%s" % (inc_key, engine, flavour, bkey))
     if os.path.exists(binary):
+        for f in objs + [binary]:          # mark as in use (see prune_build)
+            try:
+                os.utime(f)
+            except OSError:
+                pass
         return binary, {"compiled": 0, "cached": len(objs), "build_s": 0.0}
     t0 = time.time()
     ncomp = 0
